@@ -512,3 +512,7 @@ Definition chk_C17 (c : case) : list (Z * Z) :=
       ++ (if tclass_eqb cls COk && negb same then [(k, 98)] else [])
   end.
 Definition check_C17 := failing chk_C17.
+
+(* ---------- C13: the same history executed without the other tenants' transactions ----------
+   85 something observable about tenant 1 differs between the two executions *)
+Definition check_C13 := failing (fun c => map (fun k => (k, 85)) (cs_isodiff c)).
